@@ -98,15 +98,22 @@ def handle (st : St) (idx : Nat) (line : String) : St × String :=
       (match (kv rest "b").bind fromHex with
        | some b => (st, emit idx impl (judgeRetry ((kvNat rest "r").getD 0) (parseOutcomes ((kv rest "outs").getD "-")) b implToks))
        | none => bad)
+    | "retry" :: "conn" :: rest =>
+      (match (kv rest "b").bind fromHex with
+       | some b => (st, emit idx impl (judgeRetryConn ((kvNat rest "r").getD 0) (parseOutcomes ((kv rest "outs").getD "-")) b implToks))
+       | none => bad)
     | "resource" :: "claim" :: rest =>
       (st, emit idx impl (judgeClaim ((kvNat rest "declared").getD 0) ((kvNat rest "supplied").getD 0) implToks))
     | "resource" :: "nest" :: rest =>
       (st, emit idx impl (judgeNest ((kvNat rest "depth").getD 0) ((kv rest "op").getD "") implToks))
     | "reflect" :: "rt" :: _ => (st, emit idx impl (judgeReflect implToks))
+    | "conn" :: "lw" :: rest => (st, emit idx impl (judgeConnLW ((kv rest "ev").getD "") implToks))
+    | "sctp" :: "canswer" :: rest => (st, emit idx impl (judgeCAnswer ((kv rest "streams").getD "") ((kvNat rest "rounds").getD 0) implToks))
     | "smclient" :: "cea" :: _ => (st, emit idx impl (judgeCEA dict implToks))
     | "smclient" :: "dial" :: rest =>
       (st, emit idx impl (judgeDial dict ((kvNat rest "r").getD 0) ((kvNat rest "cfg").getD 0) ((kvNat rest "wf").getD 0)
-        ((kv rest "beh").getD "-") ((kv rest "post").getD "-") implToks))
+        ((kv rest "beh").getD "-") ((kv rest "post").getD "-")
+        (((kv rest "la").getD "10.1.2.3").splitOn "." |>.map (fun t => t.toNat?.getD 0)) implToks))
     | "smclient" :: "wd" :: rest =>
       (st, emit idx impl (judgeWD dict ((kvNat rest "r").getD 0) ((kv rest "beh").getD "-") implToks))
     | "sctp" :: "demux" :: rest =>
